@@ -45,6 +45,14 @@ fn set_by_name(
                     std::slice::from_ref(&value),
                     context,
                 )?;
+            } else if context.vm.frame().code_block().strict() {
+                // An accessor without a setter: `[[Set]]` returns false.
+                return Err(JsNativeError::typ()
+                    .with_message(format!(
+                        "cannot set non-writable property: {}",
+                        ic.name.to_std_string_escaped()
+                    ))
+                    .into());
             }
         } else if slot.attributes.contains(SlotAttributes::PROTOTYPE) {
             let prototype = shape.prototype().expect("prototype should have value");
